@@ -23,12 +23,17 @@ LOCS = ("SCALAR | OBJECT | INPUT_OBJECT | INPUT_FIELD_DEFINITION | ARGUMENT_DEFI
         "ENUM_VALUE")
 
 
-OBJ_RESOLVED = {"v": "s", "vs": ["s", None, "t"]}
+OBJ_RESOLVED = {"v": "s", "vs": ["s", None, "t"], "e": "RED", "es": ["GREEN", None, "RED", "RED"]}
 OBJS_RESOLVED = [{"v": "s"}, None, {"v": "t"}]
+
+
+ENUM_VALUES = ("RED", "GREEN")
 
 
 def tag_value(name, v):
     if isinstance(v, str):
+        if v in ENUM_VALUES:
+            return v            # an enum position: the hooks are counted, the value must stay a declared one
         return "%s(%s)" % (name, v)
     if isinstance(v, list):
         return [tag_value(name, x) for x in v]
@@ -67,16 +72,18 @@ scalar Tg%s
 enum En%s { RED%s GREEN }
 input In2%s { h: Tg%s }
 input In1%s { f: Tg%s g: [Tg]%s sub: In2%s }
-type Out%s { v: Tg%s e: En vs: [Tg]%s }
+type Out%s { v: Tg%s e: En es: [En] vs: [Tg]%s }
 type Query {
   echo(a: In1%s, b: Tg%s, c: [Tg]%s): Tg%s
+  dflt(a: In1 = {f: "w", g: ["x", "yz"], sub: {h: "w"}}%s, b: Tg = "x"%s, c: [Tg] = ["w", "yz"]%s): Tg%s
   obj: Out%s
   objs: [Out]%s
 }
 """ % (ds, dirs_sdl(P["Tg"]), dirs_sdl(P["En"]), dirs_sdl(P["En.RED"]), dirs_sdl(P["In2"]), dirs_sdl(P["In2.h"]),
        dirs_sdl(P["In1"]), dirs_sdl(P["In1.f"]), dirs_sdl(P["In1.g"]), dirs_sdl(P["In1.sub"]), dirs_sdl(P["Out"]),
        dirs_sdl(P["Out.v"]), dirs_sdl(P["Out.vs"]), dirs_sdl(P["echo.a"]), dirs_sdl(P["echo.b"]), dirs_sdl(P["echo.c"]),
-       dirs_sdl(P["Query.echo"]), dirs_sdl(P["Query.obj"]), dirs_sdl(P["Query.objs"]))
+       dirs_sdl(P["Query.echo"]), dirs_sdl(P["echo.a"]), dirs_sdl(P["echo.b"]), dirs_sdl(P["echo.c"]), dirs_sdl(P["Query.echo"]),
+       dirs_sdl(P["Query.obj"]), dirs_sdl(P["Query.objs"]))
 
 
 # ---- value / literal generation: ("leaf", s) ("obj", [(k, v)]) ("lst", [v]) ("var", name)
@@ -237,6 +244,11 @@ async def run_schema(pool, P, cases):
         received[info.path.as_list()[0]] = json.loads(json.dumps(args))
         return "r"
 
+    @Resolver("Query.dflt", schema_name=name)
+    async def dflt(parent, args, ctx, info):    # pylint: disable=unused-variable
+        received[info.path.as_list()[0]] = json.loads(json.dumps(args))
+        return "r"
+
     @Resolver("Query.obj", schema_name=name)
     async def obj(parent, args, ctx, info):     # pylint: disable=unused-variable
         return json.loads(json.dumps(OBJ_RESOLVED))
@@ -319,7 +331,7 @@ def gen_case(rng, pool):
         else:
             sels.append("...FE%d" % k)
             frags.append("fragment FE%d on Query { %s }" % (k, node))
-    q = "query %s { %s obj { v vs } objs { v } } %s" % (decl, " ".join(sels), " ".join(frags))
+    q = "query %s { %s obj { v vs e es } objs { v } } %s" % (decl, " ".join(sels), " ".join(frags))
     return {"query": q, "variables": dict({n: raw_json(r) for n, _t, r in vars_}, **dvars), "vars": vars_, "args": args, "qdirs": qdirs,
             "nodes": n_nodes}
 
@@ -351,8 +363,15 @@ def cases_file(pool, P, items):
             "(%s, %s, %s)" % (dinst_coq(pool, P["Query.obj"]), oty_out([("v", oty_tg()), ("vs", "(OListOf %s)" % oty_tg())]),
                               tval_coq(OBJ_RESOLVED)),
             "(%s, (OListOf %s), %s)" % (dinst_coq(pool, P["Query.objs"]), oty_out([("v", oty_tg())]), tval_coq(OBJS_RESOLVED))]
-        obs = [tval_coq(data.get("echo")), tval_coq(data.get("obj")), tval_coq(data.get("objs"))]
-        pre = coq_list(["(%s, %s)" % (coq_string(d), coq_Z(n)) for d, h, n in o["log"] if h == "on_pre_output_coercion"])
+        # the enum positions (obj.e, obj.es) and the hooks of En / En.RED are judged by python_checks (exact counts);
+        # the Coq-side model covers the Tg / Out positions
+        obj_obs = data.get("obj")
+        if isinstance(obj_obs, dict):
+            obj_obs = {k: v for k, v in obj_obs.items() if k in ("v", "vs")}
+        enum_insts = set(P["En"]) | set(P["En.RED"])
+        obs = [tval_coq(data.get("echo")), tval_coq(obj_obs), tval_coq(data.get("objs"))]
+        pre = coq_list(["(%s, %s)" % (coq_string(d), coq_Z(n)) for d, h, n in o["log"]
+                        if h == "on_pre_output_coercion" and (d, n) not in enum_insts])
         orows.append("(%s, %s, %s)" % (coq_list(parts), coq_list(obs), pre))
     L = [coqterm.HEADER,
          "From TV Require Import Model.Schema Model.Directives Model.RunDirectives Model.RunValidate Model.DirectivesOut "
@@ -425,14 +444,65 @@ def python_checks(pool, P, c, o):
     got_objs = (o["response"].get("data") or {}).get("objs")
     if got_objs != exp_objs:
         P_.append("objs is %r, expected %r" % (got_objs, exp_objs))
+    # enum positions: obj.e = RED, obj.es = [GREEN, null, RED, RED]: the enum TYPE's hooks meet all 5 values (the null
+    # one included), the hooks of the VALUE RED meet the 3 occurrences of RED; the values stay what they were
+    if not isinstance(data, dict) or data.get("e") != "RED" or data.get("es") != ["GREEN", None, "RED", "RED"]:
+        P_.append("obj.e / obj.es are %r / %r, expected 'RED' / ['GREEN', None, 'RED', 'RED']" % (
+            data.get("e") if isinstance(data, dict) else data, data.get("es") if isinstance(data, dict) else data))
     for place, expected, what in (("Tg", 7, "echo, obj.v, the 3 items of obj.vs (one null), objs[0].v, objs[2].v"),
-                                  ("Out", 4, "obj and the 3 items of objs (one null)")):
+                                  ("Out", 4, "obj and the 3 items of objs (one null)"),
+                                  ("En", 5, "obj.e and the 4 items of obj.es (one null)"),
+                                  ("En.RED", 3, "the 3 occurrences of the value RED in obj.e / obj.es")):
         for d, n in P[place]:
             if "on_pre_output_coercion" in pool[d]:
                 k = log.count((d, "on_pre_output_coercion", n))
                 if k != expected:
                     P_.append("on_pre_output_coercion of @%s(n: %d) on %s invoked %d times for %d governed values (%s)" % (
                         d, n, place, k, expected, what))
+    return P_
+
+
+# SDL defaults: the argument omitted (its default is coerced through the literal path) = the same literal written out; and
+# executing a request AGAIN on the same engine invokes the same hooks again (nothing is remembered between executions)
+DEFAULT_CASES = [
+    {"query": "{ dflt }", "variables": {}, "what": "every argument omitted: SDL defaults"},
+    {"query": '{ dflt(a: {f: "w", g: ["x", "yz"], sub: {h: "w"}}, b: "x", c: ["w", "yz"]) }', "variables": {},
+     "what": "the default literals written out"},
+    {"query": "query ($u: Tg, $l: [Tg]) { dflt(b: $u, c: $l) }", "variables": {},
+     "what": "declared, unprovided variables: SDL defaults"},
+    {"query": "{ x: dflt y: dflt }", "variables": {}, "what": "two aliases, every argument omitted"},
+]
+
+
+def default_checks(obs):
+    """obs: the observations of DEFAULT_CASES executed three times in a row on one engine"""
+    P_ = []
+    n = len(DEFAULT_CASES)
+    rounds = [obs[i * n:(i + 1) * n] for i in range(3)]
+    first = rounds[0]
+    for o, c in zip(first, DEFAULT_CASES):
+        if o["response"].get("errors"):
+            P_.append("%s: the request failed: %r" % (c["what"], o["response"]["errors"][:1]))
+    if P_:
+        return P_
+    ref_recv, ref_log = first[1]["received"].get("dflt"), sorted(first[1]["log"])
+    for o, c in zip(first[:3], DEFAULT_CASES[:3]):
+        if o["received"].get("dflt") != ref_recv:
+            P_.append("%s: the resolver received %r; with the default literals written out it receives %r" % (
+                c["what"], o["received"].get("dflt"), ref_recv))
+        if sorted(o["log"]) != ref_log:
+            P_.append("%s: hook invocations %r differ from those of the default literals written out %r" % (
+                c["what"], sorted(o["log"]), ref_log))
+    o = first[3]
+    if o["received"].get("x") != ref_recv or o["received"].get("y") != ref_recv or sorted(o["log"]) != sorted(ref_log * 2):
+        P_.append("two aliases of a field using its SDL defaults: received %r, hook invocations %r (expected twice %r)" % (
+            o["received"], sorted(o["log"]), ref_log))
+    for ri, rnd in enumerate(rounds[1:], 2):
+        for o, o1, c in zip(rnd, first, DEFAULT_CASES):
+            if o["received"] != o1["received"] or sorted(o["log"]) != sorted(o1["log"]) or o["response"] != o1["response"]:
+                P_.append("%s, execution #%d on the same engine: received %r, hook invocations %r; the first execution received "
+                          "%r with hook invocations %r" % (c["what"], ri, o["received"], sorted(o["log"]), o1["received"],
+                                                           sorted(o1["log"])))
     return P_
 
 
@@ -447,6 +517,8 @@ def main(tier_, replay=None):
     rng = random.Random(seed * 999331 + 13)
     n_schemas, n_cases = (6, 30) if tier_ == "quick" else (40, 80)
     files, meta, viol, total = [], [], [], 0
+    distinct_logged = set()
+    default_runs = 0
     for si in range(n_schemas):
         pool, P = gen_setup(rng)
         cases = [gen_case(rng, pool) for _ in range(n_cases)]
@@ -454,12 +526,19 @@ def main(tier_, replay=None):
         items = list(zip(cases, obs))
         for c, o in items:
             total += 1
+            if o["log"]:
+                distinct_logged.add((si, c["query"], json.dumps(c["variables"], sort_keys=True, default=repr)))
             if o["response"].get("errors"):
                 viol.append((pool, P, c, o, ["the request failed: %r" % (o["response"]["errors"][:1],)]))
                 continue
             probs = python_checks(pool, P, c, o)
             if probs:
                 viol.append((pool, P, c, o, probs))
+        dobs = asyncio.run(run_schema(pool, P, DEFAULT_CASES * 3))
+        default_runs += len(dobs)
+        for pr in default_checks(dobs)[:3]:
+            viol.append((pool, P, {"query": " ; ".join(c["query"] for c in DEFAULT_CASES) + "  (executed three times in a row)",
+                                   "variables": {}}, dobs[0], [pr]))
         files.append(("C13_s%d_%d" % (seed, si), cases_file(pool, P, items)))
         meta.append((pool, P, items))
     results = common.run_coq_many(files)
@@ -491,8 +570,9 @@ def main(tier_, replay=None):
         "trusted_base": common.TRUSTED_BASE + [
             "Print Assumptions: %d theorems closed; axioms: %s" % (assum["closed"], assum["axioms"] or "none")],
         "theorems": [n for n in names if n.startswith("C13_")],
-        "evaluations": total, "distinct_nontrivial": total,
-        "rule": "schemas with 0-3 tagging directive instances on scalar, input objects, input fields, arguments, field "
+        "evaluations": total + default_runs, "distinct_nontrivial": len(distinct_logged), "sdl_default_runs": default_runs,
+        "rule": "non-trivial = distinct (schema, document, variables) requests during which at least one directive hook "
+                "ran; schemas with 0-3 tagging directive instances on scalar, input objects, input fields, arguments, field "
                 "definitions, object type, enum and enum value x requests spelling arguments as literals, whole variables "
                 "and variables nested in list/object literals, with query-side field directives",
         "traces_validated_against_impl": total, "impl_model_mismatches": len(mism), "property_violations": len(viol),
